@@ -24,6 +24,10 @@ def wrappedWindow (cx cy : Rat) (nx ny sx sy : Nat) : List Int × List Int :=
   let o := windowOrigin (roundHalfEven cx) (roundHalfEven cy) nx ny
   ((List.range nx).map fun (i : Nat) => rowIndex o.1 (i : Int) sx, (List.range ny).map fun (i : Nat) => colIndex o.2 (i : Int) sy)
 
+/-- `fractional_position - old_fractional_position` of `_overlap_projection`: the sub-pixel shift applied to the probe when the
+scan moves from `old` to `pos` (one coordinate); `x - np.round(x)` is the fractional part in `[-1/2, 1/2]` -/
+def subpixelShift (pos old : Rat) : Rat := probeShift pos old (roundHalfEven pos) (roundHalfEven old)
+
 /-! ### scan positions -/
 
 structure ScanParams where
